@@ -20,6 +20,30 @@ CHECKS = {
    text="finished => complete canonical trace; interrupted => prefix of the canonical stream; 2^62 => halting programs finish; provably cyclic programs never finish.", note="Trusted: refbf incl. cycle proof.", ref="§3 C07"),
  "C08": dict(cat="fault_enumeration", tech="complete enumeration of the first failing I/O action (every position below a bound, every failure kind, input absent) for every program of the space on every backend",
    text="One run per (program, script, fault position, fault kind); log must be the canonical prefix ending with the failing attempt, no later event, normal return.", note="LLVM backend not buildable here and excluded.", ref="§3 C08"),
+ "C06": dict(cat="model_checking", tech="bounded exhaustive enumeration of programs (incl. a family of far-walking programs) x backend x level x width x allocation placement, executed on the real code under an instrumented global allocator that puts every block flush against a PROT_NONE guard page",
+   text="Any access outside the tape allocation on the guarded side faults (the tape has an array layout and is checked byte-exactly, both placements are run); contents must survive every reallocation because the I/O log must equal the canonical trace.",
+   note="Trusted: the instrumented allocator in /verif/mc/shim/src/galloc.rs; the JIT's mmap'd code pages are not instrumented.", ref="§3 C06"),
+ "C09": dict(cat="model_checking", tech="explicit-state breadth-first search over the real runtime::Memory<C> with state deduplication on the observable state, map model as oracle, guard-page allocator in both placements",
+   text="All call histories up to a depth over a 52-call alphabet covering the three growth placements, far moves and the pointer round trip; after every history the model, monotonicity, contiguity and no-allocation-on-read invariants are checked.",
+   note="Trusted: map model; interval measured by probing check().", ref="§3 C09"),
+ "C10": dict(cat="model_checking", tech="bounded exhaustive enumeration of programs run through execute_unsafe on an exact-fit pre-grown tape between two guard pages",
+   text="The unchecked entry point of the bytecode interpreter and the JIT is run on every halting program of the spaces whose checked twin agreed; faults and trace differences are violations.", note="Margin computed from the canonical excursion at the width under test.", ref="§3 C10"),
+ "C11": dict(cat="model_checking", tech="explicit-state fixpoint exploration of the control-flow graph of every generated bytecode program (forward definite-initialisation states, backward liveness states) with the safety contract as invariant",
+   text="The contract of the property is checked on every CFG path of every bytecode program generated for the spaces, for both generator settings, on the bytecode the executors actually hold.", note="Path-insensitive by design ('on any path').", ref="§3 C11"),
+ "C12": dict(cat="model_checking", tech="exhaustive enumeration of all source strings over a 5-symbol alphabet up to a length, all 1-2 comment insertions, against a reference bracket matcher",
+   text="Acceptance, error kind and character position for every string up to the bound; relational comment-insensitivity of parsing, printed IR and behaviour on all backends; totality on nesting families.", note="Alphabet {[,],+,x,e-acute} stands for all strings.", ref="§3 C12"),
+ "C13": dict(cat="model_checking", tech="exhaustive enumeration of programs x width x level for create() in two build profiles, digests compared across independently seeded worker processes and compile histories, bounded scaling families",
+   text="Totality (no panic) in both profiles; identical IR/bytecode/machine code across processes with different hash seeds and across in-process histories; executors reusable; compile time and size polynomial on scaling families up to the stated sizes.", note="Blow-up clause decided only up to the family sizes.", ref="§3 C13"),
+ "C14": dict(cat="model_checking", tech="exhaustive enumeration of operand pairs at 8 bit (and 16 bit / 2^32 unary values in the thorough tier), boundary lattice at 32/64 bit, against definitions computed by independent algorithms",
+   text="All operands where the space is finite enough; structured lattice otherwise (stated as not exhaustive).", note="Oracle: Newton-Hensel inverse, running products.", ref="§3 C14"),
+ "C15": dict(cat="model_checking", tech="breadth-first closure of the public Expr API deduplicated on the expression's own Eq/Hash, every result evaluated under a complete grid of assignments",
+   text="Every expression reachable in three rounds of add/mul/neg/half/normalize/substitution from the atom pool (pool cap reported) is compared with concrete modular arithmetic under all assignments of the grid; all decompositions must recompose.", note="split_along is not callable from outside the crate.", ref="§3 C15"),
+ "C16": dict(cat="model_checking", tech="exhaustive enumeration of argv vectors from a flag alphabet run on the real binary, compared with a CLI model evaluated through the library API; strace for the executor actually used",
+   text="Every combination of backend, width, level, limit, static, print options, flag order conflicts and code placements of the bounded family; stdout, exit status, stderr presence and stdin offset are compared.", note="Model evaluates through the library (tied to canonical semantics by C01-C10).", ref="§3 C16"),
+ "C17": dict(cat="fault_enumeration", tech="complete enumeration of which allocation request (1st, 2nd, ...) fails, per grower program x backend x entry point, each run in its own process under the failing + guard-page allocator",
+   text="For each program the fault-free run counts the tape/context allocation requests; every k is failed once; the process must end by SIGABRT or panic.", note="Candidates are the alloc_zeroed requests (hpbf uses them for the tape and the interpreter context only).", ref="§3 C17"),
+ "C18": dict(cat="model_checking", tech="exhaustive enumeration of all operation sequences up to a depth on the real SmallVec (capacities 1 and 2, drop-tracked elements) against a Vec model and a drop ledger",
+   text="Contents equal the Vec model after every step and every element is dropped exactly once at the end of every history.", note="Needs the feature-gated re-export of SmallVec.", ref="§3 C18"),
 }
 
 NOT_YET = {
